@@ -130,6 +130,12 @@ func (r *logLevels) shift(l ...any) *logLevels {
 			ok = true
 		}
 
+		if !ok {
+			// unresolved name or unsupported type:
+			// nothing to shift, nothing to clear
+			continue
+		}
+
 		if logLevels(ll) == logLevels(0) {
 			*r = logLevels(NoLogLevels)
 			break
